@@ -285,6 +285,9 @@ def sec_fragments(rec, two_d=False, patches=None):
         def __getitem__(self, key):
             return Frag(self.img, self.mtx, self.kw, key, self.summed)
 
+        def sum(self, axis=None, **k):  # the method spelling of np.sum(fragment, axis)
+            return Frag(self.img, self.mtx, self.kw, self.sl, ("sum", axis))
+
     def fake_affine(img, mtx, **kw):
         f = Frag(img, mtx, kw)
         calls.append(f)
